@@ -10,9 +10,10 @@ import (
 
 // removeExactlyOne: fn takes the element equal to its parameter out of the list held in `field` and nothing else.
 // Accepted shapes (enumerated from the repository and the usual Go idioms):
-//   (A) filter copy   out := make(T, 0, …) | nil | T{};  for _, e := range F { if e != x { out = append(out, e) } };  F = out
-//                     — the append is controlled by exactly `e != x`, the loop has no early exit
-//   (B) in-place      for i := range F { … F[i] == x … one of the sliceDeletion idioms on index i … }
+//
+//	(A) filter copy   out := make(T, 0, …) | nil | T{};  for _, e := range F { if e != x { out = append(out, e) } };  F = out
+//	                  — the append is controlled by exactly `e != x`, the loop has no early exit
+//	(B) in-place      for i := range F { … F[i] == x … one of the sliceDeletion idioms on index i … }
 func removeExactlyOne(c *core.Ctx, rule string, fn *core.Fn, field *types.Var, what string) {
 	if fn == nil || field == nil {
 		c.Check(false, rule, "anchors", 0, "function or field not found")
